@@ -33,6 +33,11 @@ func (h *invocationResponseHandler) ServeHTTP(writer http.ResponseWriter, reques
 	}
 
 	runtime := h.registrationService.GetRuntime()
+	if runtime == nil {
+		// the environment was reset while this request was in flight: its invocation is gone
+		rendering.RenderInvalidRequestID(writer, request)
+		return
+	}
 	if err := runtime.InvocationResponse(); err != nil {
 		log.Warn(err)
 		rendering.RenderForbiddenWithTypeMsg(writer, request, rendering.ErrorTypeInvalidStateTransition, StateTransitionFailedForRuntimeMessageFormat,
